@@ -40,6 +40,10 @@ import (
 type inlineSite struct {
 	call   *ast.CallExpr
 	callee types.Object
+	// [std] normalize_std.go: the ancestors of the call inside its header expression (outermost first, the
+	// call last) and, if set, the node that the result temporary replaces instead of the call itself
+	path    []ast.Node
+	replace ast.Node
 }
 
 type normalizer struct {
@@ -54,6 +58,8 @@ type normalizer struct {
 	busy    map[types.Object]bool
 	extra   map[string]bool // pinned functions that are inlined as well while a flat view is generated
 	Log     []string
+	// [std] normalize_std.go: predicate literals that were expanded in place (their text is gone from the file)
+	consumed map[*ast.FuncLit]bool
 }
 
 type textEdit struct {
@@ -338,7 +344,7 @@ func (nz *normalizer) findSite(info *types.Info, s ast.Stmt) (site *inlineSite, 
 			return false
 		case *ast.CallExpr:
 			// a new helper: its receiver and arguments are bound, in order, by the expansion itself
-			if cal := typeutil.Callee(info, x); cal != nil && nz.isNewHelper(cal) {
+			if cal := typeutil.Callee(info, x); cal != nil && nz.liftable(cal) { // [std] was isNewHelper
 				first = x
 				firstPath = append([]ast.Node{}, path...)
 				path = path[:len(path)-1]
@@ -380,7 +386,7 @@ func (nz *normalizer) findSite(info *types.Info, s ast.Stmt) (site *inlineSite, 
 		return nil, "", false
 	}
 	callee := typeutil.Callee(info, first)
-	if callee == nil || !nz.isNewHelper(callee) {
+	if callee == nil || !nz.liftable(callee) { // [std] was isNewHelper
 		return nil, "", false
 	}
 	// short-circuit guard along the path
@@ -403,7 +409,7 @@ func (nz *normalizer) findSite(info *types.Info, s ast.Stmt) (site *inlineSite, 
 			conj = append(conj, "!("+nz.text(be.X)+")")
 		}
 	}
-	return &inlineSite{call: first, callee: callee}, strings.Join(conj, " && "), true
+	return &inlineSite{call: first, callee: callee, path: firstPath}, strings.Join(conj, " && "), true // [std] path
 }
 
 // capturedNames: package-level names the callee's body uses that mean something else at the call site.
@@ -476,6 +482,8 @@ func (nz *normalizer) bodyText(callee types.Object, label string, results []stri
 	defer delete(nz.busy, callee)
 	file := nz.fileOf(pk, d)
 	edits := nz.stmtEdits(pk, file, d.Body)
+	// [std] fix: a closure of the callee whose calls were inlined stays "used" in the inlined copy as well
+	edits = append(edits, nz.closureKeepEdits(d.Body.Pos(), d.Body.End())...)
 	if label != "" {
 		named := namedResults(d)
 		var lits []*ast.FuncLit
@@ -645,6 +653,11 @@ func (nz *normalizer) expansion(pk *packages.Package, file *ast.File, site *inli
 		nz.Log = append(nz.Log, fmt.Sprintf("not inlined: %s (a type or the body cannot be spelled at the call site)", objName(callee)))
 		return "", nil, false
 	}
+	// [std] fix: a helper from another file may use an import the caller's file does not have
+	if miss := nz.missingImport(pk, file, callee, flat); miss != "" {
+		nz.Log = append(nz.Log, fmt.Sprintf("not inlined: %s (its body uses package %s, which the file of the call at %s does not import)", objName(callee), miss, nz.fset.Position(site.call.Pos())))
+		return "", nil, false
+	}
 	loop := fmt.Sprintf("%s: for { %s%s; break %s }; ", id, body.String(), flat, id)
 	if guard != "" {
 		sb.WriteString("if " + guard + " { " + binds.String() + loop + "}; ")
@@ -761,7 +774,23 @@ func (nz *normalizer) stmtEdits(pk *packages.Package, file *ast.File, root ast.N
 		if guard != "" && (sig.Results().Len() != 1) {
 			return
 		}
-		prelude, temps, ok := nz.expansion(pk, file, site, guard)
+		// [std] begin: standard-library helpers are expanded by normalize_std.go; a call whose operands are
+		// declared by the init statement of the same header cannot be lifted in front of it
+		var prelude string
+		var temps []string
+		if nz.isStd(site.callee) {
+			prelude, temps, ok = nz.stdExpansion(pk, file, site, target)
+		} else if nz.usesHeaderDecl(info, target, site) {
+			nz.Log = append(nz.Log, fmt.Sprintf("not inlined: %s (an operand is declared in the same statement header at %s)", objName(site.callee), nz.fset.Position(site.call.Pos())))
+			return
+		} else {
+			prelude, temps, ok = nz.expansion(pk, file, site, guard)
+		}
+		var replaced ast.Node = site.call
+		if site.replace != nil {
+			replaced = site.replace
+		}
+		// [std] end
 		if !ok {
 			return
 		}
@@ -784,7 +813,7 @@ func (nz *normalizer) stmtEdits(pk *packages.Package, file *ast.File, root ast.N
 		seq++
 		edits = append(edits, textEdit{nz.off(s.Pos()), nz.off(s.Pos()), open + prelude, seq})
 		seq++
-		edits = append(edits, textEdit{nz.off(site.call.Pos()), nz.off(site.call.End()), repl, seq})
+		edits = append(edits, textEdit{nz.off(replaced.Pos()), nz.off(replaced.End()), repl, seq}) // [std] was site.call
 		if elseIf {
 			seq++
 			edits = append(edits, textEdit{nz.off(s.End()), nz.off(s.End()), closeB, seq})
@@ -836,6 +865,9 @@ func (nz *normalizer) stmtEdits(pk *packages.Package, file *ast.File, root ast.N
 	// function literals inside the body have their own statement lists
 	ast.Inspect(root, func(n ast.Node) bool {
 		if fl, ok := n.(*ast.FuncLit); ok && fl.Body != nil {
+			if nz.consumed[fl] {
+				return false // [std] expanded in place by normalize_std.go, nested helpers included
+			}
 			walkList(fl.Body.List)
 		}
 		return true
@@ -879,6 +911,18 @@ func BuildOverlay(pkgs []*packages.Package, pinned map[string]bool) (map[string]
 		for _, f := range pk.Syntax {
 			var edits []textEdit
 			for _, d := range f.Decls {
+				// [std] function literals in package-level var initialisers (`var f = func(..) {..}`) have
+				// statement lists as well; stmtEdits walks the literals below any node
+				if gd, isGen := d.(*ast.GenDecl); isGen && gd.Tok == token.VAR {
+					for _, sp := range gd.Specs {
+						if vs, isVS := sp.(*ast.ValueSpec); isVS {
+							for _, v := range vs.Values {
+								edits = append(edits, nz.stmtEdits(pk, f, v)...)
+							}
+						}
+					}
+					continue
+				}
 				fd, ok := d.(*ast.FuncDecl)
 				if !ok || fd.Body == nil {
 					continue
@@ -938,6 +982,10 @@ func BuildOverlay(pkgs []*packages.Package, pinned map[string]bool) (map[string]
 			name := nz.fset.Position(f.Pos()).Filename
 			b := nz.fileBytes(name)
 			overlay[name] = []byte(applyEdits(b, 0, len(b), edits))
+			// [std] an import that lost its last use to an expansion becomes a blank import
+			if ie := nz.importEdits(pk, f, overlay[name]); len(ie) > 0 {
+				overlay[name] = []byte(applyEdits(b, 0, len(b), append(edits, ie...)))
+			}
 		}
 	}
 	return overlay, nz.Log
